@@ -467,6 +467,17 @@ func (q *seqRun) doOp() {
 					q.find([]string{"C10"}, "C10:snapshot-differs-from-reported-state", "the snapshot saved at step %d holds %s differently from what the runner reports at that instant: %v", q.step, q.jn(lj.ID), diffs)
 				}
 			}
+			// and the other direction: what the store holds after the save returned (the last snapshot it was handed) contains
+			// no job that the runner no longer reports - a restart would bring it back (seed C10-m: a save whose snapshot is
+			// empty is skipped, so the jobs that this very save removed stay in the store)
+			after := q.sys.Snapshot(-1)
+			q.res.sit("C10", fmt.Sprintf("store after an explicit save compared with the %d jobs reported afterwards", min(len(after.Jobs), 3)))
+			for id := range last.Jobs {
+				if after.ByID(id) == nil {
+					q.find([]string{"C10", "C12"}, "C10:store-holds-a-job-that-is-no-longer-reported", "after the save of step %d returned, the store still holds job %s (last snapshot it was handed: %d jobs), which the runner does not report any more (%d jobs reported): a restart would bring it back", q.step, q.jn(id), len(last.Jobs), len(after.Jobs))
+					break
+				}
+			}
 		}
 		q.settle(nil)
 	}
